@@ -66,6 +66,12 @@ impl Field for Ed448ScalarField {
     }
 
     fn deserialize(buf: &Self::Serialization) -> Result<Self::Scalar, FieldError> {
+        // Scalars are smaller than 2^446, so the last byte of the canonical 57-byte
+        // encoding is always zero. `from_canonical_bytes()` does not reject a non-zero
+        // last byte (it is ignored), which would allow multiple encodings of one scalar.
+        if buf[56] != 0 {
+            return Err(FieldError::MalformedScalar);
+        }
         match EdwardsScalar::from_canonical_bytes(buf.into()).into() {
             Some(s) => Ok(s),
             None => Err(FieldError::MalformedScalar),
